@@ -70,6 +70,7 @@ fn main() {
     let code = match prop.as_str() {
         "C02" | "C03" | "C04" | "C05" | "C06" | "C14" | "C15" => props::pool::run(&ctx),
         "C16" => props::c16::run(&ctx),
+        "C12" => props::c12::run(&ctx),
         "C01" | "C07" | "C09" => props::net::run(&ctx),
         "C13" | "C17" => props::reqs::run(&ctx),
         "C19" => props::c19::run(&ctx),
